@@ -13,7 +13,7 @@ PROP = "C10"
 
 
 def tlc_histories(max_ops):
-    cfg = ("CONSTANTS\n Inst = {1, 2}\n Cfgs = {1, 2, 3}\n StepSizes = {1, 4}\n MaxOps = %d\n Horizon = 6\n"
+    cfg = ("CONSTANTS\n Inst = {1, 2}\n Cfgs = {1, 2, 3}\n StepSizes = {1, 4}\n MaxOps = %d\n Horizon = 6\n BadCfgs = {8, 9}\n"
            "SPECIFICATION Spec\nINVARIANT Isolation\nINVARIANT Export\nPROPERTY NonInterference\nCHECK_DEADLOCK FALSE\n" % max_ops)
     tla = "---- MODULE MC_HistGen ----\nEXTENDS Histories\n====\n"
     wd = tlc.scratch("verif_hist_")
@@ -54,6 +54,11 @@ def run(tier, seed):
             # another period (other CO2 concentrations, other weather rows), two seasons, default CO2 object like configuration 1
             3: S("Tomato", "Default", seed=seed + 3, year=2004, seasons=2, irr={"method": 3, "schedule": [["2004/05/05", 30], ["2004/06/01", 20], ["2004/06/20", 25], ["2005/07/04", 15], ["2005/07/30", 28]]}, crop_kw={"Zmax": 1.6},
                  gw={"water_table": "Y", "method": "Variable", "dates": ["2004/04/20", "2004/06/10", "2004/08/01", "2005/09/15"], "values": [2.2, 1.4, 1.0, 1.9]})}
+    # instance 1's objects rely on the constructors' defaults wherever it can (defaults are shared by every later object of the class)
+    cfgs[1]["iwc"] = {}
+    # configurations the model rejects, built from constructor defaults + one argument (Reject action of the specification)
+    cfgs[8] = dict(S("Wheat", seed=seed + 1, soil_spec=sandy), gw={"water_table": "Y"})
+    cfgs[9] = dict(S("Wheat", seed=seed + 1, soil_spec=loamy), iwc={"depth_layer": [1, 2]})
     hs, st = tlc_histories(6 if tier == "thorough" else 5)
     rnd.shuffle(hs)
     # only histories in which at least one instance has been stepped
@@ -66,14 +71,14 @@ def run(tier, seed):
     for h in hs[:nh]:
         ops = []
         for o in h:
-            if o["op"] == "new":
-                ops.append({"op": "new", "i": o["i"], "c": o["c"]})
+            if o["op"] in ("new", "reject"):
+                ops.append({"op": o["op"], "i": o["i"], "c": o["c"]})
             elif o["op"] == "step":
                 ops.append({"op": "step", "i": o["i"], "k": o["k"] * UNIT})
             else:
                 ops.append({"op": "finish", "i": o["i"]})
         for target in sorted({o["i"] for o in h if o["op"] in ("step", "finish")}):
-            own = [o for o in ops if o["i"] == target]
+            own = [o for o in ops if o["i"] == target and o["op"] != "reject"]
             # own history after the last 'new'
             last_new = max(i for i, o in enumerate(own) if o["op"] == "new")
             own = own[last_new:]
@@ -91,6 +96,8 @@ def run(tier, seed):
     # determinism across fresh interpreter processes and hash seeds: results computed in subprocesses
     presup = {}
     for c, sc in cfgs.items():
+        if c in (8, 9):
+            continue
         base = len(jobs)
         jobs.append({"kind": "plain", "scenario": sc})
         presup[base] = E.run_job_subprocess(jobs[base], hashseed="0")
